@@ -283,7 +283,15 @@ def check_nullish_tables(ctx, rule):
         test = G.substitute(t.test, {k: v for k, v in env.items() if k != 'row'})
         names = {x.id for x in ast.walk(test) if isinstance(x, ast.Name) and isinstance(x.ctx, ast.Load)}
         bound = {x.id for c in ast.walk(test) if isinstance(c, ast.comprehension) for x in ast.walk(c.target) if isinstance(x, ast.Name)}
-        if not (names - bound) <= {'row', 'len', 'all', 'any', 'set', 'frozenset', 'empty_row'}:
+        import builtins as _b
+        free = {n_ for n_ in names - bound if n_ != 'row' and not hasattr(_b, n_) and ctx.prog.resolve(es.module, n_) is None}
+        # what else does the test read?  locals / parameters of the export (the node, the options, the stage): the test is not
+        # about the exported cells.  Class constants read through self / cls are part of the table.
+        self_consts_only = all(isinstance(p_, ast.Attribute) and ctx.prog.find_class_attr(es.cls, p_.attr) is not None
+                               for p_ in ast.walk(test) if isinstance(p_, ast.Attribute) and isinstance(p_.value, ast.Name)
+                               and p_.value.id in ('self', 'cls')) if es.cls is not None else False
+        foreign = {n_ for n_ in free if not (n_ in ('self', 'cls') and self_consts_only)}
+        if foreign:
             ctx.violation(rule, at, es.qualname, 'null-row-test-not-on-exported-cells',
                           f'the row test `{src(t.test)[:100]}` does not compare the exported cells with the placeholder table: a cell '
                           f'that became a placeholder through a gate (a hidden barline, a filtered token) is not recognised as null, so '
@@ -292,7 +300,7 @@ def check_nullish_tables(ctx, rule):
         # the checker's evaluator interprets the test on every row of at most two cells over placeholders and other cells
         kept_wrong, dropped_wrong = [], []
         for row in samples:
-            ok_, v = ctx.ce.try_eval(test, es.module, None, {'row': list(row)})
+            ok_, v = ctx.ce.try_eval(test, es.module, es.cls, {'row': list(row)})
             if not ok_:
                 raise AnalysisError(f'{at}: the row test `{src(test)[:100]}` cannot be interpreted')
             want = len(row) > 0 and any(c not in need for c in row)
